@@ -30,14 +30,15 @@ def expand(c):
     """Reported = Selected x files x {commented} minus supAll minus supRule (both decided by TLC)."""
     if c["error"]:
         return []
-    sup_all = {(t["file"], t["commented"]) for t in c["supAll"]}
-    sup_rule = {(t["rule"], t["file"], t["commented"]) for t in c["supRule"]}
+    sup_all = {(t["file"], t["commented"], t["against"]) for t in c["supAll"]}
+    sup_rule = {(t["rule"], t["file"], t["commented"], t["against"]) for t in c["supRule"]}
     out = []
     for r in c["selected"]:
-        for f in ("x", "y", "z", "imp"):
-            for cm in (False, True):
-                if (f, cm) not in sup_all and (r, f, cm) not in sup_rule:
-                    out.append({"rule": r, "file": f, "commented": cm})
+        for f in ("x", "y", "z", "imp", "s1", "s2"):
+            for a in ((f, "s2") if f == "s1" else (f,)):
+                for cm in (False, True):
+                    if (f, cm, a) not in sup_all and (r, f, cm, a) not in sup_rule:
+                        out.append({"rule": r, "file": f, "commented": cm, "against": a})
     return out
 
 
@@ -47,7 +48,7 @@ def run(ctx):
     rt = os.path.join(ctx.scratch, "RuleTables.tla")
     with open(rt, "w") as f:
         f.write(gen_tables(tables))
-    kinds = ["lint-v2", "breaking-v1"] if ctx.quick else ["lint-v2", "breaking-v2", "lint-v1", "breaking-v1", "lint-v1beta1", "breaking-v1beta1"]
+    kinds = ["lint-v2", "breaking-v2", "lint-v1", "breaking-v1"] if ctx.quick else ["lint-v2", "breaking-v2", "lint-v1", "breaking-v1", "lint-v1beta1", "breaking-v1beta1"]
     mc = os.path.join(ctx.scratch, "MCRulesConfig.tla")
     with open(mc, "w") as f:
         f.write("---- MODULE MCRulesConfig ----\nEXTENDS RulesConfig\nKindsDef == {%s}\n====\n" % ", ".join('"%s"' % k for k in kinds))
@@ -62,6 +63,8 @@ def run(ctx):
         io = {}
         if c["ignoreOnlyKey"] != "none":
             io[c["ignoreOnlyKey"]] = ["/".join(c["ignoreOnlyPath"])]
+        if c["ignoreOnly2"]:
+            io["FIELD_SAME_CARDINALITY"] = ["/".join(c["otherPath"])]
         conv.append(dict(kind=c["kind"], use=sorted(c["use"]), **{"except": sorted(c["except"])}, ignore=["/".join(p) for p in c["ignore"]],
                          ignoreOnly=io, allowComments=c["allowComments"], excludeImports=c["excludeImports"], error=c["error"],
                          selected=sorted(c["selected"]), expected=expand(c)))
